@@ -28,6 +28,7 @@ MIN_NONTRIVIAL = {"quick": 1500, "thorough": 30000}
 REQUIRED = ["eval:simplify_latent_dag", "eval:NxMixedGraph.to_latent_variable_dag",
             "eval:NxMixedGraph.from_latent_variable_dag", "eval:evans_simplify", "C16:projection-compared",
             "C16:idempotence-checked", "C16:roundtrip-compared", "C16:separation-queries-compared",
+            "C16:single-rule-projections-compared",
             "C16:taheri-verdicts-compared"]
 EXHAUSTIVE = {"quick": "round trip: all labelled ADMGs on <=3 nodes", "thorough": "round trip: all labelled ADMGs on <=4 nodes"}
 TIMEOUT = {"quick": 900, "thorough": 7200}
@@ -193,9 +194,48 @@ def _post_evans(snap, res, graph, *, latents=None, tag=None):
                          case={"graph": _fmt_rg(ref), "latents": sorted(map(str, extra))})
 
 
+# ---- the four rules, each on its own (they are public): a rule must not change the latent projection ----------------
+
+
+def _pre_rule(graph, *a, **k):
+    tag = _tagname(k.get("tag") if "tag" in k else (a[0] if a and isinstance(a[0], str) else None))
+    return {"before": dag_snapshot(graph, tag), "tag": tag}
+
+
+def _mk_post_rule(name, needs_exogenous):
+    def post(snap, res, graph, *a, **k):
+        if snap is None:
+            return
+        tag = snap["tag"]
+        nodes0, edges0 = snap["before"]
+        lat0 = {n for n, l in nodes0 if l}
+        if needs_exogenous and any(v in lat0 for _, v in edges0):
+            # the rule is stated for exogenous latents (after the transformation of latents with parents)
+            kernel.count(f"C16:{name}:latent-with-parent-skipped")
+            return
+        out = res[0] if isinstance(res, tuple) else res
+        nodes1, edges1 = dag_snapshot(out, tag)
+        lat1 = {n for n, l in nodes1 if l}
+        obs0 = {n for n, l in nodes0 if not l}
+        want = latent_projection({n for n, _ in nodes0}, edges0, lat0)
+        got = latent_projection({n for n, _ in nodes1}, edges1, lat1)
+        kernel.count(f"C16:{name}:projection-compared")
+        kernel.count("C16:single-rule-projections-compared")
+        if got != want or not obs0 <= {n for n, l in nodes1 if not l}:
+            kernel.violation(PROP, "rule-keeps-projection", f"{name} changed the latent projection: before {_fmt_dag(snap['before'])} "
+                             f"-> {_fmt_rg(want)}, after {_fmt_dag((nodes1, edges1))} -> {_fmt_rg(got)}",
+                             case={"dag": _fmt_dag(snap["before"]), "rule": name})
+
+    return post
+
+
 def install():
     import y0.algorithm.simplify_latent as sl
     import y0.graph as yg
+
+    for name, needs in (("remove_widow_latents", False), ("transform_latents_with_parents", False),
+                        ("remove_unidirectional_latents", True), ("remove_redundant_latents", True)):
+        kernel.install_function(sl, name, label=name, pre=_pre_rule, post=_mk_post_rule(name, needs))
 
     kernel.install_function(sl, "simplify_latent_dag", label="simplify_latent_dag", pre=_pre_simplify, post=_post_simplify)
     kernel.install_function(sl, "evans_simplify", label="evans_simplify", post=_post_evans)
@@ -280,6 +320,32 @@ def _tag_value(flag, rep):
 
         return numpy.bool_(flag)
     return bool(flag)
+
+
+def nested_latents(rng):
+    """Latents whose children are latents: a tree of 2-3 levels of latents above observed leaves, plus a few extras."""
+    k = rng.randint(2, 4)
+    top = ["A"]
+    mid = [f"M{i}" for i in range(k)]
+    leaves = [f"X{i}" for i in range(rng.randint(k, k + 2))]
+    edges = [["A", m] for m in mid if rng.random() < 0.85]
+    for j, x in enumerate(leaves):
+        edges.append([mid[j % k], x])
+        if rng.random() < 0.3:
+            edges.append([rng.choice(mid), x])
+    latent = set(top + mid)
+    extra = [f"Z{i}" for i in range(rng.randint(0, 2))]
+    for z in extra:
+        if rng.random() < 0.5:
+            edges.append([z, rng.choice(mid)])  # a latent with an observed parent
+        else:
+            edges.append([rng.choice(mid + top), z])
+        if rng.random() < 0.3:
+            latent.add(z)
+    edges = [list(e) for e in dict.fromkeys(map(tuple, edges))]
+    nodes = top + mid + leaves + extra
+    rng.shuffle(nodes)
+    return {"nodes": nodes, "latent": sorted(latent), "edges": edges, "cls": "nested-latents"}
 
 
 def build_dag(dd, tag=TAG):
@@ -546,11 +612,29 @@ def run_shard(ctx):
         run_roundtrip(ctx, gd)
         if i % 2 == 0:
             run_evans(ctx, gd, rng)
+    # each rule on its own, on raw (un-transformed) LV-DAGs with nested latents
+    import y0.algorithm.simplify_latent as sl_
+
+    for i in range(ctx.share({"quick": 3000, "thorough": 40000}[ctx.tier])):
+        dd = nested_latents(rng) if i % 3 == 0 else random_lvdag(rng)
+        g = build_dag(dd)
+        rule = ("remove_widow_latents", "transform_latents_with_parents", "remove_unidirectional_latents",
+                "remove_redundant_latents")[i % 4]
+        kernel.LOG.reset_case({"dag": dd, "rule": rule})
+        try:
+            if i % 8 >= 4:
+                sl_.transform_latents_with_parents(g, tag=TAG)  # make the latents exogenous first
+            getattr(sl_, rule)(g, tag=TAG)
+        except Exception as e:  # noqa: BLE001
+            kernel.violation(PROP, "total", f"{rule} raised {type(e).__name__}: {e} on {dd}", case={"dag": dd, "rule": rule})
+        ctx.case(f"rule|{rule}|{dag_key(dd)}", any(v in dd["latent"] for _, v in dd["edges"]))
     for i in range(ctx.share({"quick": 60, "thorough": 1500}[ctx.tier])):
         dd = random_lvdag(rng, rng.randint(3, 5))
         run_taheri(ctx, dd, rng)
-    for i in range(ctx.share({"quick": 60, "thorough": 1500}[ctx.tier])):
-        run_taheri_admg(ctx, gg.random_admg(rng, rng.randint(3, 5), p_bi=rng.choice((0.1, 0.25))), rng)
+    for i in range(ctx.share({"quick": 800, "thorough": 6000}[ctx.tier])):
+        # (a third of them with node names that look like the latents the conversion makes up: u_0, u_1, T_1)
+        run_taheri_admg(ctx, gg.random_admg(rng, rng.randint(3, 5), p_bi=rng.choice((0.1, 0.25)),
+                                            hostile=("names_prefixed" if i % 3 == 0 else None)), rng)
 
 
 def replay(case):
